@@ -175,12 +175,27 @@ def _jtext(v):
     return json.dumps(v, sort_keys=True, ensure_ascii=False)
 
 
+_REUSED = {}
+
+
+def _inst(cls, *args, reuse=False):
+    """a Finder / Getter: a fresh instance per call, or (reuse) ONE instance kept for the whole session, as a
+    long-lived tool would hold it: what it answers must still follow the data"""
+    if not reuse:
+        return cls(*args)
+    key = (cls.__name__,) + tuple(args)
+    if key not in _REUSED:
+        _REUSED[key] = cls(*args)
+    return _REUSED[key]
+
+
 def world_op(j):
     import shutil
     from pathlib import Path
     from spil import WriteToPaths, GetFromPaths, FindInPaths, FindInAll, GetFromAll
     do = j["do"]
     config = j.get("config")
+    reuse = bool(j.get("reuse"))
     if do == "new":
         for r in _roots().values():
             shutil.rmtree(r, ignore_errors=True)
@@ -242,8 +257,12 @@ def world_op(j):
                 p.write_text("{ this is not json")
         return True
     if do == "get_data" or do == "get_data_all":
-        g = GetFromPaths(config) if do == "get_data" else GetFromAll()
-        r = g.get_data(j["sid"], attributes=j.get("attributes") or None, sid_encode=_enc(j.get("enc", "str")))
+        g = _inst(GetFromPaths, config, reuse=reuse) if do == "get_data" else _inst(GetFromAll, reuse=reuse)
+        if j.get("via") == "sid_get_attr":      # the same values read one by one through Sid.get_attr
+            x0 = Sid(j["sid"])
+            r = {a: x0.get_attr(a) for a in j["attributes"]}
+        else:
+            r = g.get_data(j["sid"], attributes=j.get("attributes") or None, sid_encode=_enc(j.get("enc", "str")))
         out = []
         for k, v in r.items():
             if k == "sid" and j.get("enc", "str") != "none" and isinstance(v, str):
@@ -252,7 +271,7 @@ def world_op(j):
                 out.append([k, None if (v is None and j.get("attributes")) else _jtext(v)])
         return out
     if do == "getter_paths" or do == "getter_all":
-        g = GetFromPaths(config) if do == "getter_paths" else GetFromAll()
+        g = _inst(GetFromPaths, config, reuse=reuse) if do == "getter_paths" else _inst(GetFromAll, reuse=reuse)
         recs = []
         enc = j.get("enc", "str")
         for r in g.get(j["s"], attributes=j.get("attributes") or None, sid_encode=_enc(enc)):
@@ -265,11 +284,11 @@ def world_op(j):
             recs.append(out)
         return recs
     if do == "find_paths":
-        return sorted(FindInPaths(config).find(j["s"], as_sid=False))
+        return sorted(_inst(FindInPaths, config, reuse=reuse).find(j["s"], as_sid=False))
     if do == "find_all":
         # "all_config": the name handed to get_finder_for (it selects a SET of Finders; the shipped data
         # configuration builds the same set for every name)
-        return sorted(FindInAll(j.get("all_config")).find(j["s"], as_sid=False))
+        return sorted(_inst(FindInAll, j.get("all_config"), reuse=reuse).find(j["s"], as_sid=False))
     x = Sid(j["sid"])
     if do == "sid_exists":
         return bool(x.exists())
